@@ -221,6 +221,27 @@ func runC02(k *eng.Check, tier string) {
 			ok := len(args) >= 4 && eng.Mentions(args[3], eng.IsField("store/nbs.manifestContents.root")) && eng.Mentions(args[3], eng.IsParamOfType("store/nbs.manifestContents"))
 			k.Require("journal-cas", eng.Name(fn)+"#root-arg", "the root written to the journal is the root of the proposed contents", ok, c.InstrPos(in), "commitRootHash argument is not next.root")
 		}
+		// the proposed contents are adopted (cached as the journal's contents, or handed back to the caller, which
+		// reads "contents with my new lock" as an acknowledged commit) only after the root record — and with it the
+		// flush and fsync of every chunk record buffered before it — succeeded; a root that did not move is no exception
+		isNext := eng.IsParamOfType("store/nbs.manifestContents")
+		adopt := eng.NewSet()
+		for _, st := range eng.FieldStores(fn, `store/nbs\.ChunkJournal$`, "contents") {
+			if s, ok := st.(*ssa.Store); ok && eng.Mentions(s.Val, isNext) {
+				adopt.AddI(st)
+			}
+		}
+		for in := range eng.SuccessExits(fn).I {
+			// a return of the parameter itself (a return of j.contents is covered through the adopting store)
+			if ret, ok := in.(*ssa.Return); ok && len(ret.Results) > 0 && isNext(eng.Origin(eng.Unspill(ret, 0))) {
+				adopt.AddI(in)
+			}
+		}
+		crOK := eng.NewSet()
+		for in := range cr.I {
+			crOK.Union(eng.OkCut(in.(ssa.CallInstruction)))
+		}
+		k.OnlyAfter("journal-ack", fn, "the journal adopts or returns the proposed contents only after commitRootHash returned nil", adopt, 1, crOK)
 		// a changed table set goes to the backing manifest first
 		flush := k.OkCalls(fn, "flush", eng.Static("(*store/nbs.ChunkJournal).flushToBackingManifest"))
 		sameSpecs := eng.CondEdgesP(fn, func(v ssa.Value) bool { return eng.Mentions(v, eng.IsCall(eng.Static("store/nbs.equalSpecs"))) }, true)
